@@ -201,6 +201,28 @@ fn build_stmt(shape: u8) -> Statement {
             else_branch: Some(Box::new(Reference { reference: Statement::Empty(AstInfo::new(0..1)), offset: 13 })),
             info: AstInfo::new(0..14),
         }),
+        // lean shapes (leaf children only): the statement-level impls with the smallest recursion depth
+        5 => Statement::Assignment(Assignment { variable: named(0), expr: Some(refd(int(0), 2)), info: AstInfo::new(0..4) }),
+        6 => Statement::Call(CallStatement {
+            name: Identifier { value: String::new(), info: AstInfo::new(0..1) },
+            arguments: vec![refd(int(0), 2)],
+            info: AstInfo::new(0..5),
+        }),
+        7 => Statement::If(IfStatement {
+            condition: Some(refd(int(0), 2)),
+            if_branch: Some(Box::new(Reference { reference: Statement::Empty(AstInfo::new(0..1)), offset: 4 })),
+            else_branch: Some(Box::new(Reference { reference: Statement::Empty(AstInfo::new(0..1)), offset: 6 })),
+            info: AstInfo::new(0..7),
+        }),
+        8 => Statement::While(WhileStatement {
+            condition: Some(refd(int(0), 2)),
+            statement: Some(Box::new(Reference { reference: Statement::Empty(AstInfo::new(0..1)), offset: 4 })),
+            info: AstInfo::new(0..5),
+        }),
+        9 => Statement::Block(BlockStatement {
+            statements: vec![Reference { reference: Statement::Empty(AstInfo::new(0..1)), offset: 1 }, Reference { reference: Statement::Error(AstInfo::new(0..1)), offset: 2 }],
+            info: AstInfo::new(0..4),
+        }),
         _ => Statement::While(WhileStatement {
             condition: Some(refd(int(0), 2)),
             statement: Some(Box::new(Reference {
@@ -235,6 +257,11 @@ stmt_harness!(c01_a3t_stmt_assign_indexed, 1, 3);
 stmt_harness!(c01_a3t_stmt_call, 2, 3);
 stmt_harness!(c01_a3t_stmt_if_else, 3, 3);
 stmt_harness!(c01_a3t_stmt_while_block, 4, 4);
+stmt_harness!(c01_a3t_stmt_lean_assign, 5, 2);
+stmt_harness!(c01_a3t_stmt_lean_call, 6, 3);
+stmt_harness!(c01_a3t_stmt_lean_if_else, 7, 3);
+stmt_harness!(c01_a3t_stmt_lean_while, 8, 3);
+stmt_harness!(c01_a3t_stmt_lean_block, 9, 4);
 
 #[kani::proof]
 #[kani::unwind(3)]
